@@ -16,6 +16,7 @@ func init() {
 			"R16.4 parser and writer errors are returned, only io.EOF is absorbed, the piped path ends with Flush then Error, and the goroutines of the WriterTo branch close their pipe ends on every exit and their errors are waited for; R16.5 nil/typed-nil/unsupported sources and destinations yield an error (reflect validity typestate as in C15). " +
 			"R16.1 also: fields of csvOpts are written only by option setters at construction or in a per-call copy. " +
 			"R16.2 also: the container a consumer pipes records into starts empty; R16.3 also: a record returned by a reader's Read is never appended to a table as it is; R16.4 also: a failed call may not be re-executed by a loop without its error having been returned. " +
+			"R16.2 also: the emptied destination is grown by the very n its capacity is then set to. " +
 			"NOT decided: record-for-record equality with encoding/csv.",
 		Run: runC16,
 	})
